@@ -32,6 +32,14 @@ class _Raise(Exception):
     pass
 
 
+class _Break(Exception):
+    pass
+
+
+class _Continue(Exception):
+    pass
+
+
 STR_METHODS = {'startswith', 'endswith', 'replace', 'join', 'lower', 'upper', 'split', 'strip',
                'lstrip', 'rstrip', 'format', 'count', 'find', 'rfind', 'index', 'title', 'isdigit'}
 BUILTINS = {'len': len, 'tuple': tuple, 'list': list, 'dict': dict, 'max': max, 'min': min, 'sorted': sorted,
@@ -73,7 +81,7 @@ class Folder:
         for st in tree.body:
             try:
                 self.stmt(st, env)
-            except (_Return, _Raise):
+            except (_Return, _Raise, _Break, _Continue):
                 raise Unfoldable('return/raise at module level')
             except Exception as e:      # Unfoldable, or a Python error while applying a pure op: not a constant
                 why = '%s: %s' % (type(e).__name__, e)
@@ -144,17 +152,37 @@ class Folder:
             for s in body: self.stmt(s, env)
             return
         if isinstance(st, ast.For):
+            broke = False
             for v in self.expr(st.iter, env):
                 self.assign(st.target, v, env)
-                for s in st.body: self.stmt(s, env)
+                try:
+                    for s in st.body: self.stmt(s, env)
+                except _Continue:
+                    continue
+                except _Break:
+                    broke = True
+                    break
+            if not broke:
+                for s in st.orelse: self.stmt(s, env)
             return
         if isinstance(st, ast.While):
             n = 0
+            broke = False
             while self.expr(st.test, env):
                 n += 1
                 if n > 100000: raise Unfoldable('loop bound')
-                for s in st.body: self.stmt(s, env)
+                try:
+                    for s in st.body: self.stmt(s, env)
+                except _Continue:
+                    continue
+                except _Break:
+                    broke = True
+                    break
+            if not broke:
+                for s in st.orelse: self.stmt(s, env)
             return
+        if isinstance(st, ast.Break): raise _Break()
+        if isinstance(st, ast.Continue): raise _Continue()
         if isinstance(st, ast.Return):
             raise _Return(self.expr(st.value, env) if st.value else None)
         if isinstance(st, ast.Raise):
